@@ -219,7 +219,8 @@ check('C04', TV,
       'block\'s multiplier columns" is unsat; the exact optimum of P equals the exact optimum of the finite program over '
       'vertex distributions (z3 Optimize) and the value of the real solve(); special cases: singleton supports with fixed '
       'probabilities (sample average), single scenario without expectation information vs the compiled ro model.',
-      'Trusted as C03. Blocks with more than 60 local columns are stretch obligations.',
+      'Trusted as C03. Blocks with more than 60 local columns are stretch obligations. Members with conic supports / expectation sets (balls, second-moment liftings, exponential-cone bounds on the mean) have no exists-forall decision procedure within reach: '
+      'for them a numeric layer evaluates the worst case of every row as a conic LP over the moment set (Lemma M, ECOS) at the returned decisions and searches a feasible point whose worst-case objective beats the reported optimum (a checkable certificate of conservatism); reported separately in evidence (conic-better-point-search).',
       'SMT exists-forall LRA projection per block + exact LRA optimisation',
       'DESIGN.md section 4 C04')
 
